@@ -8,25 +8,34 @@ Theorem C10_pointer_escape_roundtrip : forall t, unescape (escape t) = t.
 Proof. exact pointer_escape_roundtrip. Qed.
 Print Assumptions C10_pointer_escape_roundtrip.
 
-(* resolve_pointer is RFC 6901 wherever it does not use a non-canonical token as an array index *)
+(* resolve_pointer (as repaired by commits 5f4626e6 and 6e969657) is RFC 6901 for every document and every pointer whose
+   escapes are valid *)
 Theorem C10_pointer_rfc6901_partial : forall d p,
-  valid_escapes p = true -> short_tokens p = true -> lenient_hit d p = false ->
-  resolve_pointer d p = of_opt (rfc6901 d p).
+  valid_escapes p = true -> resolve_pointer d p = w_of_opt (rfc6901 d p).
 Proof. exact pointer_rfc6901_partial. Qed.
 Print Assumptions C10_pointer_rfc6901_partial.
 
-(* ... and the unrestricted statement is false: /a/-1, / 1, /1_0 select array elements *)
+(* without that hypothesis the statement is false: /a~2 (a ~ followed by neither 0 nor 1, taken literally) resolves *)
 Theorem C10_pointer_rfc6901_refuted :
-  (exists d p, lenient_hit d p = true /\ resolve_pointer d p <> of_opt (rfc6901 d p)) /\
-  resolve_pointer d_10_20 p_space <> of_opt (rfc6901 d_10_20 p_space) /\
-  resolve_pointer d_0_19 p_under <> of_opt (rfc6901 d_0_19 p_under) /\
-  (exists d p, valid_escapes p = false /\ resolve_pointer d p <> of_opt (rfc6901 d p)).
-Proof.
-  split; [exists d_a123, p_neg; split; [exact (proj1 pointer_refuted_regions)|exact pointer_refuted_neg]|].
-  split; [exact pointer_refuted_space|]. split; [exact pointer_refuted_under|].
-  exists d_tilde, p_tilde. exact pointer_refuted_tilde.
-Qed.
+  exists d p, valid_escapes p = false /\ resolve_pointer d p <> w_of_opt (rfc6901 d p).
+Proof. exists d_tilde, p_tilde. exact pointer_refuted_tilde. Qed.
 Print Assumptions C10_pointer_rfc6901_refuted.
+
+(* regression sentinel: the resolver as it was before the repair (array tokens through int()) is NOT RFC 6901 on /a/-1, / 1, /1_0,
+   it was RFC 6901 outside lenient_hit, and the current resolver answers UNRESOLVABLE on those witnesses *)
+Theorem C10_pointer_int_lenient_sentinel :
+  (exists d p, lenient_hit d p = true /\ resolve_pointer_int_lenient d p <> of_opt (rfc6901 d p) /\ resolve_pointer d p = WUnres) /\
+  (resolve_pointer_int_lenient d_10_20 p_space <> of_opt (rfc6901 d_10_20 p_space) /\ resolve_pointer d_10_20 p_space = WUnres) /\
+  (resolve_pointer_int_lenient d_0_19 p_under <> of_opt (rfc6901 d_0_19 p_under) /\ resolve_pointer d_0_19 p_under = WUnres) /\
+  (forall d p, valid_escapes p = true -> short_tokens p = true -> lenient_hit d p = false ->
+     resolve_pointer_int_lenient d p = of_opt (rfc6901 d p)).
+Proof.
+  destruct repaired_on_legacy_witnesses as [R1 [R2 R3]].
+  split; [exists d_a123, p_neg; split; [exact (proj1 legacy_refuted_regions)|split; [exact legacy_refuted_neg|exact R1]]|].
+  split; [split; [exact legacy_refuted_space|exact R2]|]. split; [split; [exact legacy_refuted_under|exact R3]|].
+  exact legacy_pointer_rfc6901_partial.
+Qed.
+Print Assumptions C10_pointer_int_lenient_sentinel.
 
 (* a response filter says exactly what the response key means: exact code, NXX wildcard,
    default = no other documented key matches *)
